@@ -283,7 +283,8 @@ func init() {
 		azUnit(c)
 		azValidatorReload(c)
 		azE2E(c)
-		c.close([]string{"iv:true", "iv:false", "va:true", "va:false", "va:reload", "va:emptied-file", "gr:true", "gr:false", "ao:true", "ao:false", "ao:nil-session",
+		azDeployments(c)
+		c.close([]string{"az:behind-proxy", "az:refused-while-deletes-fail", "iv:true", "iv:false", "va:true", "va:false", "va:reload", "va:emptied-file", "gr:true", "gr:false", "ao:true", "ao:false", "ao:nil-session",
 			"ao:domain-check-pass", "ao:domain-check-fail", "login:session", "login:forbidden", "gate:ok", "gate:denied", "gate:login", "gate:bypass",
 			"history:file-rewrite-denied", "history:second-proxy-denied", "history:second-proxy-ok", "authonly:202", "authonly:403", "authonly:401",
 			"htpasswd:exempt-served", "htpasswd:groups-denied", "monitor:served-allowed", "monitor:refused-cleared"})
@@ -992,4 +993,73 @@ func azHasStar(ds []string) bool {
 		}
 	}
 	return false
+}
+
+// azDeployments: the rules in deployments the other parts do not build.
+//   * behind another proxy (nginx auth_request / forwardAuth): the auth-only constraints are the ones on the URL the FRONT PROXY
+//     asks (`/oauth2/auth?allowed_groups=…`), whatever query the user's original URI (X-Forwarded-Uri) carries or lacks;
+//   * a session failing the global rules is refused AND its cookie cleared also while the session store refuses deletes
+//     (a read-only Redis replica during fail-over): the deletion of the cookie does not depend on the store's answer.
+func azDeployments(c *suiteCtx) {
+	u := defaultUser() // groups dev, ops; alice@example.com
+	if e, err := newEnv(c, proxyCfg{ReverseProxy: true, InjectRequest: defaultInject()}); err == nil {
+		ck := e.issueSessionCookie(e.sessionFor(u, time.Minute))
+		for _, k := range []struct {
+			target, fwd string
+			want        int
+		}{
+			{"/oauth2/auth?allowed_groups=nobody", "/app/page", 403},
+			{"/oauth2/auth?allowed_groups=nobody", "/app/page?allowed_groups=dev", 403},
+			{"/oauth2/auth?allowed_groups=dev", "/app/page?allowed_groups=nobody", 202},
+			{"/oauth2/auth?allowed_emails=someone.else@example.com", "/app", 403},
+			{"/oauth2/auth?allowed_emails=someone.else@example.com", "/app?allowed_emails=alice@example.com", 403},
+			{"/oauth2/auth?allowed_email_domains=elsewhere.org", "/x?allowed_email_domains=example.com", 403},
+			{"/oauth2/auth?allowed_email_domains=example.com", "/x?allowed_email_domains=elsewhere.org", 202},
+			{"/oauth2/auth", "/app?allowed_groups=nobody&allowed_emails=x@y.z", 202},
+			{"/oauth2/auth?allowed_groups=dev&allowed_emails=alice@example.com", "", 202},
+		} {
+			h := http.Header{}
+			if k.fwd != "" {
+				h.Set("X-Forwarded-Uri", k.fwd)
+				h.Set("X-Forwarded-Host", "app.example.com")
+				h.Set("X-Forwarded-Proto", "https")
+			}
+			v := e.do(reqSpec{Target: k.target, Header: h, Cookie: ck})
+			c.casen("az|behind-proxy|"+k.target+"|"+k.fwd, fmt.Sprint(v.Status))
+			c.count("az:behind-proxy")
+			if v.Status != k.want {
+				c.violation("C08", fmt.Sprintf("auth-only endpoint behind another proxy: the constraints on the auth URL were not the ones applied (status %d, want %d)", v.Status, k.want),
+					map[string]interface{}{"auth_url": k.target, "x_forwarded_uri": k.fwd, "session_groups": []string{"dev", "ops"}, "session_email": u.Email, "status": v.Status})
+			}
+		}
+		e.close()
+	} else {
+		c.violation("HARNESS", "env: "+err.Error(), nil)
+	}
+	if e, err := newEnv(c, proxyCfg{Redis: true, AllowedGroups: []string{"admins"}, InjectRequest: defaultInject()}); err == nil {
+		for _, target := range []string{"/app/x", "/oauth2/auth", "/oauth2/userinfo"} {
+			ck := e.issueSessionCookie(e.sessionFor(u, time.Minute)) // a valid session whose groups no longer satisfy the rule
+			e.redisFault = map[string]string{"DEL": "always"}
+			v := e.do(reqSpec{Target: target, Cookie: ck})
+			e.redisFault = nil
+			cleared := false
+			for _, sc := range v.Cookies {
+				if isSessionCookieNameH(e.opts.Cookie.Name, sc.Name) && (sc.MaxAge < 0 || sc.Value == "") {
+					cleared = true
+				}
+			}
+			c.casen("az|refused-del-fails|"+target, fmt.Sprint(v.Status))
+			c.count("az:refused-while-deletes-fail")
+			if len(v.Hits) > 0 || v.Status == 200 || v.Status == 202 {
+				c.violation("C08", "a session failing the allowed-groups rule was served while the session store refused deletes", map[string]interface{}{"target": target, "status": v.Status})
+			} else if !cleared {
+				c.violation("C08", "a session failing the global rules was refused but its cookie was not cleared (the session store refused the delete at that moment: the cookie deletion must not depend on it)",
+					map[string]interface{}{"target": target, "status": v.Status, "set_cookie": fmt.Sprint(v.Header["Set-Cookie"])})
+			}
+			e.mr.FlushAll()
+		}
+		e.close()
+	} else {
+		c.violation("HARNESS", "env: "+err.Error(), nil)
+	}
 }
